@@ -63,15 +63,20 @@ static void tab_init(void) {
 #define TAB_TOMB 1
 #define TAB_LIVE 2
 #define TAB_BAD 3
-static int tab_state(const JanetKV *kv) {
+#define TAB_MAXB 16                      /* largest capacity any unit uses */
+/* state of a bucket; *kid = key id of a LIVE bucket, else 0 */
+static int tab_state_k(const JanetKV *kv, int *kid) {
+  *kid = 0;
   if (kv->key.u64 == tab_nilw) {
     if (kv->value.u64 == tab_nilw) return TAB_EMPTY;
     if (kv->value.u64 == tab_falsew) return TAB_TOMB;
     return TAB_BAD;
   }
-  if (tab_kid(kv->key) != 0 && !janet_checktype(kv->value, JANET_NIL)) return TAB_LIVE;
+  int k = tab_kid(kv->key);
+  if (k != 0 && !janet_checktype(kv->value, JANET_NIL)) { *kid = k; return TAB_LIVE; }
   return TAB_BAD;
 }
+static int tab_state(const JanetKV *kv) { int k; return tab_state_k(kv, &k); }
 static int32_t tab_home(int32_t cap, int k) { return (int32_t)((uint32_t) g_tab_h[k] & (uint32_t)(cap - 1)); }
 static int32_t tab_dist(int32_t cap, int32_t from, int32_t to) { return (to - from) & (cap - 1); }
 static int tab_pow2(int32_t cap) { return cap >= 1 && (cap & (cap - 1)) == 0; }
@@ -79,19 +84,23 @@ static int tab_pow2(int32_t cap) { return cap >= 1 && (cap & (cap - 1)) == 0; }
 /* wf_dict; *nlive / *ntomb = number of LIVE / TOMBSTONE buckets */
 static int tab_wf_dict(const JanetKV *b, int32_t cap, int32_t *nlive, int32_t *ntomb) {
   int ok = 1; int32_t nl = 0, nt = 0; unsigned seen = 0;
-  if (!tab_pow2(cap)) { *nlive = 0; *ntomb = 0; return 0; }                  /* D1 */
+  int st[TAB_MAXB], kd[TAB_MAXB]; int32_t hm[TAB_MAXB];
+  *nlive = 0; *ntomb = 0;
+  if (!tab_pow2(cap) || cap > TAB_MAXB) return 0;                           /* D1 */
   for (int32_t i = 0; i < cap; i++) {
-    int s = tab_state(b + i);
-    if (s == TAB_BAD) ok = 0;                                               /* D2 */
-    if (s == TAB_TOMB) nt++;
-    if (s == TAB_LIVE) {
-      int k = tab_kid(b[i].key);
-      if (seen & (1u << k)) ok = 0;                                         /* D3 */
-      seen |= 1u << k;
+    st[i] = tab_state_k(b + i, &kd[i]);
+    hm[i] = tab_home(cap, kd[i]);
+  }
+  for (int32_t i = 0; i < cap; i++) {
+    if (st[i] == TAB_BAD) ok = 0;                                           /* D2 */
+    if (st[i] == TAB_TOMB) nt++;
+    if (st[i] == TAB_LIVE) {
+      if (seen & (1u << kd[i])) ok = 0;                                     /* D3 */
+      seen |= 1u << kd[i];
       nl++;
-      int32_t h = tab_home(cap, k), di = tab_dist(cap, h, i);
+      int32_t di = tab_dist(cap, hm[i], i);
       for (int32_t j = 0; j < cap; j++)                                     /* D4 */
-        if (tab_state(b + j) == TAB_EMPTY && tab_dist(cap, h, j) <= di) ok = 0;
+        if (st[j] == TAB_EMPTY && tab_dist(cap, hm[i], j) <= di) ok = 0;
     }
   }
   *nlive = nl; *ntomb = nt;
@@ -100,7 +109,10 @@ static int tab_wf_dict(const JanetKV *b, int32_t cap, int32_t *nlive, int32_t *n
 
 static Janet tab_lookup(const JanetKV *b, int32_t cap, int k) {
   Janet r = janet_wrap_nil();
-  for (int32_t i = 0; i < cap; i++) if (k != 0 && tab_state(b + i) == TAB_LIVE && tab_kid(b[i].key) == k) r = b[i].value;
+  for (int32_t i = 0; i < cap; i++) {
+    int ki;
+    if (tab_state_k(b + i, &ki) == TAB_LIVE && k != 0 && ki == k) r = b[i].value;
+  }
   return r;
 }
 
@@ -112,9 +124,10 @@ static int32_t tab_find_spec(const JanetKV *b, int32_t cap, int k) {
   int32_t h = tab_home(cap, k);
   int32_t match = -1, e = -1, t = -1, ed = cap, td = cap;
   for (int32_t i = 0; i < cap; i++) {
-    int s = tab_state(b + i);
+    int ki;
+    int s = tab_state_k(b + i, &ki);
     int32_t d = tab_dist(cap, h, i);
-    if (s == TAB_LIVE && k != 0 && tab_kid(b[i].key) == k) match = i;
+    if (s == TAB_LIVE && k != 0 && ki == k) match = i;
     if (s == TAB_EMPTY && d < ed) { e = i; ed = d; }
     if (s == TAB_TOMB && d < td) { t = i; td = d; }
   }
